@@ -2,6 +2,7 @@ package props
 
 import (
 	"fmt"
+	"strings"
 	"time"
 
 	proto "github.com/kubewharf/kubebrain-client/api/v2rpc"
@@ -15,17 +16,17 @@ import (
 // The same PRNG request script is executed in lock-step on every engine; normalised transcripts
 // (success flag / returned kv / error class / revisions / range results / events) must agree.
 
-var c12Engines = []string{"memkv", "badger", "tikv", "memkv+m", "badger+m", "tikv+m"}
+var c12Engines = []string{"memkv", "badger", "tikv", "memkv+m", "badger+m", "tikv+m", "tikv/split", "memkv/parts"}
 
 func init() {
 	Registry["C12"] = &Prop{
 		Plan: func(tier string) Plan {
-			return Plan{Level: "exploration", NCases: pick(tier, 48, 1200), Batch: 2, CaseTimeout: 180,
-				Rule: "one case = one PRNG sequential script of 40-120 requests (create/update/delete with correct, stale and zero expectations on existing, missing, deleted and compacted keys; Get/List/Count at latest and old revisions; Compact) executed step by step on memkv, Badger, TiKV mock and the three metrics-wrapped variants, all started at the same revision, plus one watcher from revision 0 per engine. " +
+			return Plan{Level: "exploration", NCases: pick(tier, 120, 2400), Batch: 2, CaseTimeout: 180,
+				Rule: "one case = one PRNG sequential script of 40-120 requests (create/update/delete with correct, stale and zero expectations on existing, missing, deleted and compacted keys; Get/List/Count at latest and old revisions; Compact) executed step by step on memkv, Badger, TiKV mock, the three metrics-wrapped variants, a TiKV mock pre-split into regions and a memkv reporting several partitions, all started at the same revision, plus one watcher from revision 0 per engine. " +
 					"oracle = pairwise equality of normalised transcripts against the memkv run (error texts are not compared, only error vs response). " +
 					"non-trivial = script with >=1 failed condition on a missing key, >=1 write on a deleted key, >=1 compaction followed by a read below it; distinct by script digest",
 				Assumptions: []string{"error texts are not compared, only the class (error / response)", "each step waits for the read revision, so engine timing is not part of the transcript"},
-				MinConcl:    pick(tier, 40, 1000)}
+				MinConcl:    pick(tier, 100, 2000)}
 		},
 		Name: func(c *harness.Case) string { return "lockstep" },
 		Run:  runC12,
@@ -49,10 +50,24 @@ func runC12(c *harness.Case) {
 		evs  []string
 	}
 	var engs []*eng
+	c12Keys := []string{harness.Prefix + "/a", harness.Prefix + "/a/b", harness.Prefix + "/b", harness.Prefix + "/c", harness.Prefix + "/d"}
 	for _, k := range c12Engines {
-		n, e, ok := newSeqNode(c, k, backend.Config{EnableEtcdCompatibility: true})
-		if !ok {
-			return
+		var n *harness.Node
+		var e *harness.Engine
+		if strings.Contains(k, "/") {
+			// the same engine family with the key space split into several partitions / regions
+			kv, pe, _, ok := partitionedStore(c, r, strings.Split(k, "/")[0], c12Keys, 1000, 120)
+			if !ok {
+				return
+			}
+			e = pe
+			n = harness.NewNode(harness.NodeOpts{KV: kv, Config: backend.Config{EnableEtcdCompatibility: true}})
+		} else {
+			var ok bool
+			n, e, ok = newSeqNode(c, k, backend.Config{EnableEtcdCompatibility: true})
+			if !ok {
+				return
+			}
 		}
 		defer e.Close()
 		defer n.Retire()
